@@ -660,7 +660,7 @@ func finish() {
 	if run.Thorough() {
 		tier = "thorough: cheap types (pe-coff, cab, cat, ps, appmanifest, jar, xap, deb, pgp): every shape x keys x all six digests x full flag product (output mode cycling through in place / separate / pre-existing) plus the relic-signed twin of every shape x keys x digests; other types: same with digests {SHA-256, SHA-384} on non-canonical shapes and all six on the canonical shape; plus (C) as in quick"
 	}
-	run.Rule("every case = one (type, shape, presigned?, key, digest, flag assignment, output mode) executed through BOTH the standalone pipeline and the server handler; " + tier + ". distinct_nontrivial = distinct (type, shape, presigned, key, digest, flags, output mode, path) tuples that reached the oracle (all of them: each one signs or refuses on the real pipeline). Keys: X.509 types {rsaA RSA-2048, p256A, p384, p521, pgpOnly (no X.509 certificate)}; PGP types {rsaA, p256A (no PGP certificate), pgpOnly}. states = distinct tuples, transitions = evaluations")
+	run.Rule("every case = one (type, shape, presigned?, key, digest, flag assignment, output mode) executed through BOTH the standalone pipeline and the server handler; " + tier + ". distinct_nontrivial = distinct (type, shape, presigned, key, digest, flags, output mode, path) tuples that reached the oracle (all of them: each one signs or refuses on the real pipeline). Keys: X.509 types {rsaA RSA-2048, p256A, p384, p521, pgpOnly (no X.509 certificate)}; PGP types {rsaA, p256A (no PGP certificate), pgpOnly}. The pgp shape family includes documents sized so that the BODY of the literal data packet of an inline signed message (6 + file name + document octets, file name data.bin) is L-1, L, L+1, L+2 for every L where RFC 4880 4.2 changes the form of a packet length: 191, 255, 8383, 65535 and 2^k-1 for k=9..16 (44 body lengths; quick: x every single signer flag incl. --inline; thorough: x the full flag product incl. --inline --armor). states = distinct tuples, transitions = evaluations")
 	run.Assume("a new signature is identified by the configured leaf certificate (byte-equal) or PGP primary-key fingerprint; earlier signatures in already-signed inputs are by other keys (rsaB, third parties)")
 	run.Assume("must-support / must-refuse tables are listed in cmd/c01/types.go with their sources; combinations in neither table and all lenient (legal but unusual) shapes only need 'explicit error XOR verifiable output'")
 	run.Assume("relic has no verifier for cosign artifacts: they are checked by an independent verifier written from the cosign / OCI specifications (cmd/c01/cosign.go)")
